@@ -42,16 +42,37 @@ pub struct Task {
 
 pub struct TableModel {
     pub size: u64,
-    pub slots: Vec<(u64, u32)>,
+    pub slots: Vec<(u64, Val)>,
 }
 
 pub struct EngineState {
     pub base: Option<(Board, Pos)>,
     pub tasks: Vec<Task>,
-    pub table: Option<(CacheTable<u32>, TableModel)>,
+    pub table: Option<(CacheTable<Val>, TableModel)>,
 }
 
-pub const TABLE_DEFAULT: u32 = 0xDEFA;
+/// The stored value type. Like a real engine entry it compares by `depth` only (PartialEq / PartialOrd
+/// are what `CacheTable` demands of its values), while the table must hand back exactly the value that
+/// was written: the harness compares `depth` AND `stamp`.
+#[derive(Copy, Clone, Debug)]
+pub struct Val {
+    pub depth: u8,
+    pub stamp: u32,
+}
+impl PartialEq for Val {
+    fn eq(&self, o: &Val) -> bool {
+        self.depth == o.depth
+    }
+}
+impl PartialOrd for Val {
+    fn partial_cmp(&self, o: &Val) -> Option<std::cmp::Ordering> {
+        self.depth.partial_cmp(&o.depth)
+    }
+}
+fn ex(v: Val) -> (u8, u32) {
+    (v.depth, v.stamp)
+}
+pub const TABLE_DEFAULT: Val = Val { depth: 0, stamp: 0xDEFA };
 
 impl EngineState {
     pub fn new() -> EngineState {
@@ -568,11 +589,13 @@ impl Exec {
         if valid && size > (1 << 20) {
             return Ok(Flow::Go);
         }
-        if !valid && size > (1 << 40) {
-            // would try to allocate only if the constructor wrongly accepts; usize::MAX-like sizes
-            // are still handed over: a correct constructor panics before allocating
+        // invalid sizes may be astronomically large: a correct constructor panics BEFORE it allocates; one that
+        // allocates first dies in the allocator (abort), which the driver attributes to this step. Invalid sizes
+        // between 2^21 and 2^44 are not used (an accepting constructor would really allocate them).
+        if !valid && size > (1 << 21) && size < (1 << 44) {
+            return Ok(Flow::Go);
         }
-        let r = guard(|| CacheTable::<u32>::new(size as usize, TABLE_DEFAULT));
+        let r = guard(|| CacheTable::<Val>::new(size as usize, TABLE_DEFAULT));
         if self.on(19) {
             self.stats.evals += 1;
             self.stats.distinct.push(0x7AB1E ^ size.wrapping_mul(0x9E3779B97F4A7C15));
@@ -605,7 +628,7 @@ impl Exec {
 
     fn slot_state(tm: &TableModel, key: u64) -> u64 {
         let s = tm.slots[(key % tm.size) as usize];
-        if s == (0, TABLE_DEFAULT) {
+        if s.0 == 0 && ex(s.1) == ex(TABLE_DEFAULT) {
             0
         } else if s.0 == key {
             1
@@ -630,7 +653,7 @@ impl Exec {
                 if st == 2 {
                     self.stats.cnt("reach.get_same_slot_other_hash");
                 }
-                if got != want {
+                if got.map(ex) != want.map(ex) {
                     let sig = match (got, want) {
                         (Some(_), None) => "get/hit_under_other_hash",
                         (None, Some(_)) => "get/miss_on_stored_hash",
@@ -639,7 +662,7 @@ impl Exec {
                     return Err(viol(
                         "C19",
                         sig,
-                        format!("size {}: get({:016x}) = {:?}, slot holds ({:016x}, {}) so expected {:?}", size, key, got, slot.0, slot.1, want),
+                        format!("size {}: get({:016x}) = {:?}, slot holds ({:016x}, {:?}) so expected {:?}", size, key, got, slot.0, slot.1, want),
                     ));
                 }
             }
@@ -649,31 +672,36 @@ impl Exec {
 
     fn table_add(&mut self, c: usize, key: u64, val: u8) -> Result<Flow, Violation> {
         self.stamp += 1;
-        let mut stamp = self.stamp;
+        let mut v = Val { depth: (self.stamp % 3) as u8, stamp: self.stamp };
         let armed = self.on(19);
         if let Some((tb, tm)) = self.eng[c].table.as_mut() {
             let st = Self::slot_state(tm, key);
+            let cur = tm.slots[(key % tm.size) as usize].1;
             match val {
                 1 => {
-                    stamp = tm.slots[(key % tm.size) as usize].1;
+                    v = cur;
                     self.stats.cnt("reach.write_of_value_equal_to_slot_content");
                 }
-                2 => stamp = TABLE_DEFAULT,
+                2 => v = TABLE_DEFAULT,
+                3 => {
+                    // equal under the value type's own PartialEq (same depth), but a different value
+                    v.depth = cur.depth;
+                    self.stats.cnt("reach.write_of_value_eq_but_not_identical");
+                }
                 _ => {}
             }
-            tb.add(key, stamp);
+            tb.add(key, v);
             let idx = (key % tm.size) as usize;
             if st == 2 {
                 self.stats.cnt("reach.table_eviction");
             }
-            tm.slots[idx] = (key, stamp);
+            tm.slots[idx] = (key, v);
             if armed {
                 self.stats.evals += 1;
                 self.stats.distinct.push((tm.size.trailing_zeros() as u64) << 8 | st << 4 | 2);
-                // read back at once, and read the neighbours' keys too (an off-by-one in the mask lands there)
                 let got = tb.get(key);
-                if got != Some(stamp) {
-                    return Err(viol("C19", "add/not_readable_afterwards", format!("size {}: add({:016x}) then get = {:?}", tm.size, key, got)));
+                if got.map(ex) != Some(ex(v)) {
+                    return Err(viol("C19", "add/not_readable_afterwards", format!("size {}: add({:016x}, {:?}) then get = {:?}", tm.size, key, v, got)));
                 }
             }
         }
@@ -685,68 +713,69 @@ impl Exec {
 
     fn table_replace_if(&mut self, c: usize, key: u64, pred: u8, val: u8) -> Result<Flow, Violation> {
         self.stamp += 1;
-        let mut stamp = self.stamp;
+        let mut v = Val { depth: (self.stamp % 3) as u8, stamp: self.stamp };
         let armed = self.on(19);
         if let Some((tb, tm)) = self.eng[c].table.as_mut() {
             let idx = (key % tm.size) as usize;
             let cur = tm.slots[idx];
             match val {
                 1 => {
-                    stamp = cur.1;
+                    v = cur.1;
                     self.stats.cnt("reach.write_of_value_equal_to_slot_content");
                 }
-                2 => stamp = TABLE_DEFAULT,
+                2 => v = TABLE_DEFAULT,
+                3 => {
+                    v.depth = cur.1.depth;
+                    self.stats.cnt("reach.write_of_value_eq_but_not_identical");
+                }
                 _ => {}
             }
             let st = Self::slot_state(tm, key);
-            let seen: Cell<Option<u32>> = Cell::new(None);
-            let calls: Cell<u32> = Cell::new(0);
-            let f = |old: u32| -> bool {
-                seen.set(Some(old));
-                calls.set(calls.get() + 1);
+            let seen: Cell<Option<(u8, u32)>> = Cell::new(None);
+            let stamp = v.stamp;
+            let decide = move |old: Val| -> bool {
                 match pred {
                     0 => true,
                     1 => false,
-                    2 => old == TABLE_DEFAULT,
-                    3 => old < stamp,
-                    5 => panic!("predicate gives up"),
-                    _ => old % 2 == 1,
+                    2 => ex(old) == ex(TABLE_DEFAULT),
+                    3 => old.stamp < stamp,
+                    _ => old.stamp % 2 == 1,
                 }
+            };
+            let f = |old: Val| -> bool {
+                seen.set(Some(ex(old)));
+                if pred == 5 {
+                    panic!("predicate gives up");
+                }
+                decide(old)
             };
             if pred == 5 {
                 // a predicate that never returns true (it unwinds): the slot must keep its content
-                let _ = guard(|| tb.replace_if(key, stamp, f));
+                let _ = guard(|| tb.replace_if(key, v, f));
                 self.stats.cnt("reach.replace_if_with_unwinding_predicate");
             } else {
-                tb.replace_if(key, stamp, f);
+                tb.replace_if(key, v, f);
             }
-            let decision = match pred {
-                0 => true,
-                1 => false,
-                2 => cur.1 == TABLE_DEFAULT,
-                3 => cur.1 < stamp,
-                5 => false,
-                _ => cur.1 % 2 == 1,
-            };
+            let decision = if pred == 5 { false } else { decide(cur.1) };
             if decision {
-                tm.slots[idx] = (key, stamp);
+                tm.slots[idx] = (key, v);
             }
             if armed {
                 self.stats.evals += 1;
                 self.stats.distinct.push((tm.size.trailing_zeros() as u64) << 8 | st << 4 | 3 | (pred as u64) << 12);
                 // the predicate, whenever it is consulted, must see the slot's current value (an implementation
                 // that can decide without consulting it is judged by the resulting slot content below)
-                if seen.get().is_some() && seen.get() != Some(cur.1) {
+                if seen.get().is_some() && seen.get() != Some(ex(cur.1)) {
                     return Err(viol(
                         "C19",
                         "replace_if/predicate_saw_wrong_value",
-                        format!("size {}: predicate saw {:?}, slot held {}", tm.size, seen.get(), cur.1),
+                        format!("size {}: predicate saw {:?}, slot held {:?}", tm.size, seen.get(), cur.1),
                     ));
                 }
                 let got = tb.get(key);
                 let slot = tm.slots[idx];
                 let want = if slot.0 == key { Some(slot.1) } else { None };
-                if got != want {
+                if got.map(ex) != want.map(ex) {
                     return Err(viol(
                         "C19",
                         if decision { "replace_if/not_replaced_when_predicate_true" } else { "replace_if/replaced_when_predicate_false" },
@@ -773,11 +802,11 @@ impl Exec {
                 let probe = if (h % tm.size) as usize == idx { h } else { idx as u64 };
                 let got = tb.get(probe);
                 let want = if h == probe { Some(v) } else { None };
-                if got != want {
+                if got.map(ex) != want.map(ex) {
                     return Err(viol(
                         "C19",
                         "audit/other_slot_changed",
-                        format!("size {}: slot {} should hold ({:016x},{}) but get({:016x}) = {:?}", tm.size, idx, h, v, probe, got),
+                        format!("size {}: slot {} should hold ({:016x},{:?}) but get({:016x}) = {:?}", tm.size, idx, h, v, probe, got),
                     ));
                 }
             }
